@@ -114,6 +114,59 @@ def compat_2d(ctx, su, sv, dim):
         ctx.check_eq_grid('2d=1d.rowwise[%d]' % i, got[i], cp.generate_ctrlptsw(_copy2(_rows(X, su, sv)[i])))
 
 
+def _parse_2d(ctx, path):
+    """own reader of the documented 2-D control point text format: one u-row per line, points separated by ';',
+    coordinates by ','"""
+    rows = []
+    with open(path) as f:
+        for line in f.read().split('\n'):
+            if not line.strip():
+                continue
+            rows.append([[ctx.q.vq_float(c.strip()) if ctx.mode == 'sym' else float(c) for c in pt.split(',')]
+                         for pt in line.strip().split(';')])
+    return rows
+
+
+@scenario('C09', fns=['compatibility.generate_ctrlptsw2d_file', 'compatibility.generate_ctrlpts2d_weights_file',
+                      'compatibility._read_ctrltps2d_file', 'compatibility._save_ctrlpts2d_file'],
+          quick=[dict(su=2, sv=3), dict(su=3, sv=2), dict(su=2, sv=2), dict(su=1, sv=3)])
+def compat_2d_files(ctx, su, sv):
+    """requires: a text file of su lines with sv points (x, y, z, w) each, positive weights (A3: numbers print to tokens
+                 that read back as themselves)
+       ensures : generate_ctrlptsw2d_file writes su lines of sv points (x*w, y*w, z*w, w); generate_ctrlpts2d_weights_file
+                 applied to that file gives the original file content back (the two file helpers are mutually inverse)"""
+    import os
+    import shutil
+    import tempfile
+    cp = ctx.geomdl('compatibility')
+    n = su * sv
+    P = _sym_points(ctx, 'P', n, 3)
+    W = shapes.weights(ctx, 'w', n)
+    X = _rows([list(p) + [w] for p, w in zip(P, W)], su, sv)
+    Xw = _rows([[c * w for c in p] + [w] for p, w in zip(P, W)], su, sv)
+    d = tempfile.mkdtemp(prefix='verif_c09_', dir=os.environ.get('TMPDIR') or '/tmp')
+    try:
+        fin, fmid, fout = (os.path.join(d, nm) for nm in ('in.txt', 'mid.txt', 'out.txt'))
+        with open(fin, 'w') as f:
+            f.write('\n'.join(';'.join(','.join(str(c) for c in pt) for pt in row) for row in X) + '\n')
+        cp.generate_ctrlptsw2d_file(fin, fmid)
+        mid = _parse_2d(ctx, fmid)
+        ctx.check_true('weighted_file.shape', len(mid) == su and all(len(r) == sv for r in mid),
+                       'lines have %r points, expected %d lines of %d' % ([len(r) for r in mid], su, sv))
+        for i in range(min(su, len(mid))):
+            if len(mid[i]) == sv:
+                ctx.check_eq_grid('weighted_file.closed_form[%d]' % i, mid[i], Xw[i])
+        cp.generate_ctrlpts2d_weights_file(fmid, fout)
+        out = _parse_2d(ctx, fout)
+        ctx.check_true('roundtrip_file.shape', len(out) == su and all(len(r) == sv for r in out),
+                       'lines have %r points, expected %d lines of %d' % ([len(r) for r in out], su, sv))
+        for i in range(min(su, len(out))):
+            if len(out[i]) == sv:
+                ctx.check_eq_grid('roundtrip_file=original[%d]' % i, out[i], X[i])
+    finally:
+        shutil.rmtree(d, ignore_errors=True)
+
+
 # ------------------------------------------------------------------------------------------------
 # (b) the three views of NURBS objects under every history of setters
 # ------------------------------------------------------------------------------------------------
@@ -243,32 +296,36 @@ def _eval_shapes(tier):
     out = [dict(kind='curve', deg=[2], mult=[[1]]), dict(kind='curve', deg=[3], mult=[[]]),
            dict(kind='curve', deg=[1], mult=[[1, 1]]),
            dict(kind='surface', deg=[1, 2], mult=[[1], []]), dict(kind='surface', deg=[2, 1], mult=[[], []]),
-           dict(kind='volume', deg=[1, 1, 1], mult=[[], [], []])]
+           dict(kind='volume', deg=[1, 1, 1], mult=[[], [], []]),
+           # shapes that keep their knot vectors as given (normalize_kv=False, symbolic ranges)
+           dict(kind='curve', deg=[2], mult=[[1]], normalized=False), dict(kind='surface', deg=[1, 2], mult=[[1], []], normalized=False),
+           dict(kind='volume', deg=[1, 1, 1], mult=[[], [1], []], normalized=False)]
     if tier == 'thorough':
         out += [dict(kind='curve', deg=[3], mult=[[1, 2]]), dict(kind='surface', deg=[2, 2], mult=[[1], [1]]),
                 dict(kind='volume', deg=[2, 1, 1], mult=[[1], [], []]), dict(kind='volume', deg=[1, 1, 2], mult=[[], [1], []])]
     return out
 
 
-def _build(ctx, kind, deg, mult, rational):
+def _build(ctx, kind, deg, mult, rational, normalized=True):
     """(obj, knot vectors, sizes, P, W, params)"""
     kvs, sizes = [], []
     for a in range(len(deg)):
-        U, _inner, n = shapes.make_kv(ctx, deg[a], mult[a], prefix='abc'[a])
+        U, _inner, n = shapes.make_kv(ctx, deg[a], mult[a], prefix='abc'[a], normalized=normalized)
         kvs.append(U)
         sizes.append(n)
     total = 1
     for s in sizes:
         total *= s
-    prm = [shapes.param_in(ctx, nm, ctx.lit(0), ctx.lit(1)) for nm in ('u', 'v', 'w')[:len(deg)]]
+    prm = [shapes.param_in(ctx, nm, U[0], U[-1]) for nm, U in zip(('u', 'v', 'w'), kvs)]
     P = shapes.net(ctx, 'P', total, 2 if kind == 'curve' else 3)
     W = shapes.weights(ctx, 'w', total) if rational else None
     if kind == 'curve':
-        obj = shapes.build_curve(ctx, deg[0], kvs[0], P, W)
+        obj = shapes.build_curve(ctx, deg[0], kvs[0], P, W, normalize_kv=normalized)
     elif kind == 'surface':
-        obj = shapes.build_surface(ctx, deg[0], deg[1], kvs[0], kvs[1], P, sizes[0], sizes[1], W)
+        obj = shapes.build_surface(ctx, deg[0], deg[1], kvs[0], kvs[1], P, sizes[0], sizes[1], W, normalize_kv=normalized)
     else:
-        obj = shapes.build_volume(ctx, deg[0], deg[1], deg[2], kvs[0], kvs[1], kvs[2], P, sizes[0], sizes[1], sizes[2], W)
+        obj = shapes.build_volume(ctx, deg[0], deg[1], deg[2], kvs[0], kvs[1], kvs[2], P, sizes[0], sizes[1], sizes[2], W,
+                                  normalize_kv=normalized)
     return obj, kvs, sizes, P, W, prm
 
 
@@ -297,12 +354,12 @@ def _knots(kind, obj):
                       '_convert.convert_surface', '_convert.convert_volume', 'NURBS.Curve.ctrlpts', 'NURBS.Surface.ctrlpts',
                       'NURBS.Volume.ctrlpts'],
           quick=lambda: _eval_shapes('quick'), thorough=lambda: _eval_shapes('thorough'))
-def convert_roundtrip(ctx, kind, deg, mult):
+def convert_roundtrip(ctx, kind, deg, mult, normalized=True):
     """requires: valid clamped knot vectors, parameters in the domain
        ensures : bspline_to_nurbs(b) is rational with unit weights, same degrees / knots / points, and evaluates to the
                  spec point of b; nurbs_to_bspline of it is non-rational again and evaluates identically"""
     cv = ctx.geomdl('convert')
-    b, kvs, sizes, P, _W, prm = _build(ctx, kind, deg, mult, rational=False)
+    b, kvs, sizes, P, _W, prm = _build(ctx, kind, deg, mult, rational=False, normalized=normalized)
     want = _spec_point(kind, deg, kvs, sizes, P, prm)
     nb = ctx.geomdl('NURBS')
     bs = ctx.geomdl('BSpline')
@@ -481,12 +538,15 @@ def _grids(tier):
     # the weights are (re)assigned after the grid was read: the weighted view must follow
     out += [dict(nu=2, nv=3, weights='list', reweight=True), dict(nu=3, nv=3, weights='default', reweight=True),
             dict(nu=3, nv=2, weights='scalar', reweight=True)]
+    # bumps() edits the grid points after the weighted grid was read (5 x 5 points, base extent 2: the only admissible
+    # bump position is the centre, so the call is deterministic)
+    out += [dict(nu=5, nv=5, weights='list', bump=True)]
     return out
 
 
 @scenario('C09', fns=['CPGen.GridWeighted.grid', 'CPGen.GridWeighted.weight', 'CPGen.Grid.generate'],
           quick=lambda: _grids('quick'))
-def grid_weighted(ctx, nu, nv, weights, reweight=False):
+def grid_weighted(ctx, nu, nv, weights, reweight=False, bump=False):
     """requires: grid of nu x nv points (generate(nu-1, nv-1)) on a symbolic sx x sy rectangle at height z,
                  weights > 0 (list of nu*nv symbols | not set | one number for all)
        ensures : grid[i][j] = (x_i*w_k, y_j*w_k, z*w_k, w_k) with x_i = i*sx/(nu-1), y_j = j*sy/(nv-1) and
@@ -528,3 +588,16 @@ def grid_weighted(ctx, nu, nv, weights, reweight=False):
                 ctx.check_eq_vec('reweighted.grid[%d][%d]=own_weight' % (i, j), grid2[i][j], [x * w, y * w, z * w, w])
         # what the caller read before the edit is its own data
         ctx.check_eq_grid('reweighted.earlier_result_untouched', [p for r in grid for p in r], [p for r in seen for p in r])
+    if bump:
+        h = ctx.num('h')
+        g.bumps(1, bump_height=h, base_extent=2)
+        ref = cpgen.Grid(sx, sy, z_value=z)
+        ref.generate(nu - 1, nv - 1)
+        ref.bumps(1, bump_height=h, base_extent=2)
+        plain = ref.grid
+        ctx.check_true('bumped.reference_has_a_bump', any(p[2] is not plain[0][0][2] for r in plain for p in r))
+        grid3 = g.grid
+        for i in range(nu):
+            for j in range(nv):
+                w = W[j + i * nv]
+                ctx.check_eq_vec('bumped.grid[%d][%d]=point*own_weight' % (i, j), grid3[i][j], [c * w for c in plain[i][j]] + [w])
